@@ -1,6 +1,8 @@
 import I2N.Lemmas.Trav
 import I2N.Lemmas.TravExcl
 import I2N.Model.TravMon
+import I2N.Lemmas.PyGen
+import I2N.Extracted.GenScope
 /-!
 # C04 — A test is never executed by two workers of one scope at the same time
 
@@ -271,5 +273,95 @@ set_option maxRecDepth 100000 in
 theorem mixed_shapes_overlap :
     ¬ Homog g3m ∧ Reachable g3m 2 [] s3m ∧ scopedCount g3m s3m 0 0 = 2 ∧ classLimit g3m s3m 0 = 1 :=
   ⟨by decide, reachable_runSchedule g3m 2 [] 10 _ _ (Reachable.init []), by decide +kernel, by decide +kernel⟩
+
+/-! ## The regenerated scope selection (`harness/pygen.py`)
+
+`I2N/Extracted/GenScope.lean` is regenerated on every run from the source of `TestNode.is_started` / `is_finished`
+(the selection between counting per worker, per swarm, globally; the three *bodies* are pinned verbatim by the
+translator and stand for the Boolean they return) and from `shape_of` of `harness/travlib.py` (the function that
+computes the `shape=` field of the static node lines the model is fed with).  The model itself does not read
+`nets_spawner` / `pool_scope`: it dispatches on the exported `Node.shape`.  The theorems below close that gap: with the
+shape the harness exports, the model's `isStarted` / `isFinished` is the Python's selection applied to the model's three
+ways of counting. -/
+
+section Regenerated
+open I2N.Extracted.GenScope
+
+/-- how `Driver/Trav.lean` (`parseNode`) reads the `shape=` field of a static node line -/
+def shapeOfField (s : String) : Shape := if s = "own" then .own else if s = "swarm" then .swarm else .global
+
+/-- the arm of `scopeCount` for `Shape.own` (Python: `return worker in self.shared_*_workers`) -/
+def ownArm (set : List Nat) (w : Nat) : Bool := set.contains w
+
+/-- the arm of `scopeCount` for `Shape.swarm` (Python: the `own_cluster` block) -/
+def swarmArm (g : Graph) (s : State) (n : Nat) (set : List Nat) (w : Nat) (thr : Int) : Bool :=
+  let own := set.filter (fun v => (g.worker v).swarm == (g.worker w).swarm)
+  if thr == -1 then
+    sameList own ((involved g s n).filter (fun v => (g.worker v).swarm == (g.worker w).swarm))
+  else decide ((own.length : Int) ≥ thr)
+
+/-- the arm of `scopeCount` for `Shape.global` (Python: the final `else`) -/
+def globalArm (g : Graph) (s : State) (n : Nat) (set : List Nat) (thr : Int) : Bool :=
+  if thr == -1 then sameList set (involved g s n) else decide ((set.length : Int) ≥ thr)
+
+/-- `scopeCount` is the dispatch on the exported shape over the three arms (by definition) -/
+theorem scopeCount_arms (g : Graph) (s : State) (n : Nat) (set : List Nat) (w : Nat) (thr : Int) :
+    scopeCount g s n set w thr =
+      match (g.node n).shape with
+      | .own => ownArm set w
+      | .swarm => swarmArm g s n set w thr
+      | .global => globalArm g s n set thr := by
+  unfold scopeCount ownArm swarmArm globalArm
+  cases (g.node n).shape <;> rfl
+
+/-- **The harness' `shape_of` is the selection of `is_started` and of `is_finished`.**  For every value of
+`nets_spawner` (any string or missing), every `pool_scope` (abstracted to the two substring tests the code makes) and
+any three branch values: the Python selection with a worker given returns the branch that `shape_of` names.  No
+hypotheses; both sides are generated from source. -/
+theorem shapeOf_matches_source (sp : Option String) (sw cl : Bool) (flat o c gl : Bool) :
+    genIsStarted flat true sp sw cl o c gl =
+      (if flat then false else
+        match shapeOfField (genShapeOf sp sw cl) with | .own => o | .swarm => c | .global => gl) ∧
+    genIsFinished flat true sp sw cl o c gl =
+      (if flat then true else
+        match shapeOfField (genShapeOf sp sw cl) with | .own => o | .swarm => c | .global => gl) := by
+  rcases PyGen.optStr_cases2 sp "lxc" "remote" with rfl | rfl | rfl | ⟨s, rfl, h1, h2⟩ <;>
+    cases flat <;> cases sw <;> cases cl <;>
+    simp [genIsStarted, genIsFinished, genShapeOf, shapeOfField, *]
+
+/-- **The model's `isStarted` is the Python source's selection** applied to the model's three ways of counting,
+whenever the node's `shape` is the one the harness exports for the node's `nets_spawner` / `pool_scope`.
+Hypothesis `hshape`: the static description was produced by `shape_of` (it is, by construction of
+`travlib.spec_lines`; a hand-made graph with another shape is outside this tie). -/
+theorem isStarted_matches_source (g : Graph) (s : State) (n w : Nat) (thr : Int) (sp : Option String) (sw cl : Bool)
+    (hshape : (g.node n).shape = shapeOfField (genShapeOf sp sw cl)) :
+    isStarted g s n w thr =
+      genIsStarted (g.node n).flat true sp sw cl (ownArm (sharedStarted g s n) w)
+        (swarmArm g s n (sharedStarted g s n) w thr) (globalArm g s n (sharedStarted g s n) thr) := by
+  rw [(shapeOf_matches_source sp sw cl _ _ _ _).1, isStarted, scopeCount_arms, hshape]
+
+/-- the same for `isFinished` / `is_finished` -/
+theorem isFinished_matches_source (g : Graph) (s : State) (n w : Nat) (thr : Int) (sp : Option String) (sw cl : Bool)
+    (hshape : (g.node n).shape = shapeOfField (genShapeOf sp sw cl)) :
+    isFinished g s n w thr =
+      genIsFinished (g.node n).flat true sp sw cl (ownArm (sharedFinished g s n) w)
+        (swarmArm g s n (sharedFinished g s n) w thr) (globalArm g s n (sharedFinished g s n) thr) := by
+  rw [(shapeOf_matches_source sp sw cl _ _ _ _).2, isFinished, scopeCount_arms, hshape]
+
+/-- Without a worker (`worker=None`, e.g. the `flag` lambdas of `intertest_setup.py`) the Python counts globally whatever
+the spawner and scope are; the model has no such call (every `isStarted` / `isFinished` takes a worker). -/
+theorem no_worker_counts_globally (sp : Option String) (sw cl o c gl : Bool) :
+    genIsStarted false false sp sw cl o c gl = gl ∧ genIsFinished false false sp sw cl o c gl = gl := by
+  simp [genIsStarted, genIsFinished]
+
+/-- non-vacuity of `hshape`: the three shapes are all exported (lxc without swarm scope, remote without cluster scope,
+anything else), and the `own` copy of `g3m` satisfies `hshape` for an lxc worker without swarm scope -/
+example : shapeOfField (genShapeOf (some "lxc") false true) = .own ∧
+    shapeOfField (genShapeOf (some "remote") true false) = .swarm ∧
+    shapeOfField (genShapeOf (some "lxc") true true) = .global ∧
+    shapeOfField (genShapeOf none false false) = .global := by decide
+example : (g3m.node 1).shape = shapeOfField (genShapeOf (some "lxc") false true) := by decide
+
+end Regenerated
 
 end I2N.Props.C04
